@@ -219,13 +219,14 @@ theorem immutable_put_raises (π : Path) (col n : String) (v : Val) (s : Store)
     (h : inFilter s.mutable col = false) : putVar π col n v s = (.error .modifyImmutable, s) := by
   simp [putVar, isMutable, h]
 
-/-- **Program level**: a `put` statement into an immutable collection, anywhere, in any module body,
+/-- **Program level**: a `put` statement into an immutable collection (a leaf write, or a dict-valued
+write over a submodule's subtree), anywhere, in any module body,
 raises and leaves the store unchanged. -/
 theorem immutable_write_raises (cfg : Cfg) (fuel : Nat) (π : Path) (x : Int) (l : Local) (s : Store)
-    (col n : String) (e : Expr) (v : Int) (he : evalE x l.env e = .ok v)
+    (col : String) (rel : Path) (n : String) (e : Expr) (v : Int) (he : evalE x l.env e = .ok v)
     (h : inFilter s.mutable col = false) :
-    eval cfg (fuel + 1) (.put col n e) π x l s = (.error .modifyImmutable, s) := by
-  simp [eval, he, immutable_put_raises π col n _ s h]
+    eval cfg (fuel + 1) (.put col rel n e) π x l s = (.error .modifyImmutable, s) := by
+  simp [eval, he, immutable_put_raises (π ++ rel) col n _ s h]
 
 /-- declaring a variable that does not exist in an immutable collection raises
 (`ScopeCollectionNotFound` when the whole collection is empty, `ScopeVariableNotFoundError`
@@ -465,16 +466,16 @@ theorem more_fuel_same_result (cfg : Cfg) (fuel : Nat) (p : SProg) (π : Path) (
 /-- `Top`: param w[2]=3; child A (auto-named) holding a counter in 'stats' and sowing its input;
 called twice; a second child with an explicit name. -/
 def demo : SProg :=
-  .seq (.param "w" [2] 3) <|
+  .seq (.param "w" [.lit 2] 3) <|
   .seq (.child "A" none
     (.seq (.var "stats" "cnt" [] (.const 0)) <|
-     .seq (.put "stats" "cnt" (.add (.loc 0) (.const 1))) <|
+     .seq (.put "stats" [] "cnt" (.add (.loc 0) (.const 1))) <|
      .seq (.sow "inter" "h" .arg) <|
      .ret (.mul .arg (.const 2)))) <|
-  .seq (.call 0 (.loc 0)) <|
-  .seq (.call 0 (.loc 1)) <|
+  .seq (.call 0 (.loc 0) none) <|
+  .seq (.call 0 (.loc 1) none) <|
   .seq (.child "A" (some "foo") (.seq (.param "b" [] 1) (.ret (.add .arg (.loc 0))))) <|
-  .seq (.call 1 (.loc 2)) <|
+  .seq (.call 1 (.loc 2) none) <|
   .ret (.loc 3)
 
 def demoCfg : Cfg := {}
@@ -498,7 +499,7 @@ example : (ModuleTree.apply demoCfg 100 demo .ff demoV [] 5).result = .error .mo
     (ModuleTree.apply demoCfg 100 demo .ff demoV [] 5).final.vars = demoV.vars := by decide +kernel
 
 /-- hypotheses of `immutable_write_raises` are satisfiable -/
-example : eval demoCfg 1 (.put "stats" "cnt" (.const 1)) ["A_0"] 0 {} (Scope.bind .ff demoV [])
+example : eval demoCfg 1 (.put "stats" [] "cnt" (.const 1)) ["A_0"] 0 {} (Scope.bind .ff demoV [])
     = (.error .modifyImmutable, Scope.bind .ff demoV []) := by decide +kernel
 
 /-- hypotheses of `immutable_param_init_raises`: a missing parameter under `mutable=False` -/
@@ -512,6 +513,23 @@ example : (eval demoCfg 100 demo [] 5 {} (Scope.bind initDefault Vars.empty ["pa
 example : ObsSafe demoCfg demo ∧
     (ModuleTree.init (quiet demoCfg) 100 (eraseSow demo) initDefault ["params"] 5).result.toOption.map (·.1) = some 25 := by
   decide +kernel
+
+/-- a dict-valued write over a submodule's subtree, two levels above a counter that is then updated
+again (re-called child): the later update is what `apply` returns — 10 restored, then 11 -/
+def restoreDemo : SProg :=
+  .seq (.child "C" (some "c")
+    (.seq (.child "G" (some "g")
+      (.seq (.var "state" "count" [] (.const 0)) <|
+       .seq (.put "state" [] "count" (.add (.loc 0) (.const 1))) <|
+       .seq (.get "state" "count") <| .ret (.loc 1))) <|
+     .seq (.call 0 .arg none) <| .ret (.loc 0))) <|
+  .seq (.call 0 .arg none) <|
+  .seq (.put "state" ["c", "g"] "count" (.const 10)) <|
+  .seq (.call 0 .arg none) <| .ret (.loc 1)
+
+example : (ModuleTree.apply {} 50 restoreDemo (.name "state")
+      ⟨["state"], [(["state", "c", "g", "count"], .tensor [] [0])]⟩ [] 1).result
+    = .ok (11, ⟨["state"], [(["state", "c", "g", "count"], .tensor [] [11])]⟩) := by decide +kernel
 
 /-- hypotheses of `perturb_absent_identity` -/
 example : modulePerturb [] "perturbations" "p" 7 [] (Scope.bind .ff demoV []) = (.ok (7, []), Scope.bind .ff demoV []) := by
